@@ -9,6 +9,10 @@ NOTE = ("Trusted: Lean 4.33 kernel; axioms propext, Classical.choice, Quot.sound
         "harness/translate.py; the correspondence check (differential testing, generator quality bounds what it sees). ")
 
 CHECKS = {
+    "C15": dict(
+        text="Proved on the model of the registry dictionaries: after ANY history of registrations (valid, inconsistent, duplicate-symbol, invalid-symbol, incomplete, built-in class; private or not), removals, resets and default-value changes the tables stay dictionaries, every built-in symbol is still registered and still maps to its original class (builtins_preserved), reset() makes the element table equal to the built-in table again (reset_restores_elements), a definition whose impedance contradicts its equation is refused without touching the table (inconsistent_refused), and a definition whose class is a built-in class is refused outright (builtin_class_refused). Tie: random histories compared step by step (get_elements with all four flag combinations and the built-in classes' default values) with the real registry. PARTIAL: 'the parser recognises exactly the registered symbols', longest-symbol tokenisation and restoration of the private-flag table / class default values after reset are checked on the implementation (and by the correspondence), not proved.",
+        ref="§4 C15", tech=TECH_H,
+        note=NOTE + "_validate_impedances is an abstract predicate of the definition; class objects are numbers."),
     "C08": dict(
         text="The residual, Boukamp-weight and pseudo-chi-squared kernels of analysis/utility.py are re-translated from /repo on every run and it is proved for ALL complex data/model values with Z_exp != 0 and any number of points that the pseudo chi-squared equals the sum of the squared moduli of the relative residuals (chisqrTerm_eq_normSq_residual, chisqr_eq_sum_normSq_residuals), and that the residual kernel is (Z_exp - Z_fit)/|Z_exp| (residual_formula). The translator is cross-checked on every run. PARTIAL: the assembly of each result object (frequencies = unmasked frequencies, which impedances/residuals/chi-squared go into which field, attached circuit), non-interference of masked points (garbage on masked points -> bit-identical results) and untouched inputs are decided by the direct oracle on every entry point, not by a model.",
         ref="§4 C08", tech=TECH_T,
